@@ -19,7 +19,7 @@ PROPS_MODULE = "BiotiteModel.Props.C08"
 DRIVER_MODULE = "BiotiteModel.Driver.C08"
 EXT_MODULES = ["biotite.sequence.align.pairwise", "biotite.sequence.align.tracetable"]
 GEN_FILES = ["BiotiteModel/Gen/C08.lean"]
-RULE = ("seeded sequence pairs (length 0-7, quick; up to 12 thorough) over alphabets of 2-5 used symbols, code widths "
+RULE = ("seeded sequence pairs (length 0-7, quick; up to 12 thorough) over alphabets of 2-5 used symbols (as offset blocks of large alphabets: code VALUES straddle 255/256 and 65535/65536, first and second sequence), code widths "
         "uint8/16/32/64 and two different alphabets, int matrices in [-6,6] (any sign, asymmetric, match/mismatch, "
         "constant), linear gaps 0..-5 and affine (open, ext) incl. open<ext and zeros, global / semi-global / local, "
         "max_number 1..50.  align_optimal's score and every returned trace go through the Lean model (optimum from "
@@ -191,6 +191,13 @@ def _case(rng, maxlen, allow_empty=False):
             w2 = rng.choice(["u8", "u64"])
         if w2 == "u32" and w1 in ("u16", "u32"):
             w1 = rng.choice(["u8", "u64"])
+    offs = {"u8": [0], "u16": [0, 251, 253, 255, 256, 290], "u32": [253, 65533, 65535, 65536, 69990],
+            "u64": [0, 253, 255, 256]}
+    off1, off2 = rng.choice(offs[w1]), rng.choice(offs[w2])
+    if w1 == "u32":
+        off2 = 0                # keep the matrix small: the other alphabet stays at its k symbols
+    if w2 == "u32":
+        off1 = 0
     lo = 0 if allow_empty else 1
     n = rng.choice([lo, 1, 2, 2, 3, 3, 4, 4, 5, 5, 6, 7] if maxlen <= 7 else list(range(lo, maxlen + 1)))
     m = rng.choice([lo, 1, 2, 2, 3, 3, 4, 4, 5, 5, 6, 7] if maxlen <= 7 else list(range(lo, maxlen + 1)))
@@ -209,6 +216,7 @@ def _case(rng, maxlen, allow_empty=False):
                 b[rng.randrange(len(b))] = rng.randrange(k2)
         b = b[:max(maxlen, 7)] or [0]
     c = {"kind": "opt", "mode": rng.choice("gsl"), "gap": _gap(rng), "a": a, "b": b, "w1": w1, "w2": w2,
+         "off1": off1, "off2": off2,
          "alph2": rng.choice(["same", "chr", "chr"]), "M": _matrix(rng, k1, k2),
          "max": rng.choice([1, 1, 2, 3, 5, 10, 50, rng.randint(1, 50)])}
     if c["alph2"] == "same" and (k1 != k2 or w1 != w2):
@@ -303,6 +311,17 @@ def corpus():
                      rs=[{"tp": 0, "trace": t} for t in trs])
             c["ops"] = _ops(c)
             out.append(c)
+    # code VALUES straddling the uint8 / uint16 boundary, linear and affine, all modes, first and second sequence
+    M5 = [[3, -2, 0, 1, -1], [-2, 4, -1, 0, 2], [0, -1, 2, -3, 1], [1, 0, -3, 5, -2], [-1, 2, 1, -2, 3]]
+    for w1, o1, w2, o2 in [("u16", 253, "u8", 0), ("u8", 0, "u16", 253), ("u16", 254, "u16", 255),
+                           ("u32", 65533, "u8", 0), ("u8", 0, "u32", 65533), ("u64", 253, "u16", 256)]:
+        for mode in "gsl":
+            for gap in ([-2], [-3, -1]):
+                c = dict(base, mode=mode, gap=gap, a=[0, 3, 4, 1, 2, 4], b=[3, 4, 0, 2, 4], w1=w1, w2=w2, off1=o1,
+                         off2=o2, alph2="chr", M=M5, max=20,
+                         rs=[{"tp": 0, "trace": [[0, -1], [1, 0], [2, 1], [3, 2], [4, 3], [-1, 4], [5, -1]]}])
+                c["ops"] = _ops(c)
+                out.append(c)
     # width / alphabet combinations on one fixed input
     for w1, w2 in [("u8", "u16"), ("u16", "u8"), ("u32", "u64"), ("u64", "u32"), ("u16", "u16"), ("u8", "u32"), ("u64", "u64")]:
         c = dict(base, mode="g", gap=[-2, -1], a=[0, 1, 2, 1, 0], b=[1, 2, 2, 0], w1=w1, w2=w2, alph2="chr",
@@ -328,20 +347,28 @@ def _build(c):
     import biotite.sequence as seq
     import biotite.sequence.align as align
     k1, k2 = len(c["M"]), len(c["M"][0])
-    s1 = WIDTH_SIZE[c["w1"]] or k1
-    s2 = WIDTH_SIZE[c["w2"]] or k2
+    # code VALUES: the used symbols are the codes off .. off+k-1 of a large alphabet (e.g. 253..257 straddles the
+    # uint8 boundary, 65533..65537 the uint16 boundary); the model sees the codes minus the offset and the k1 x k2 block
+    o1, o2 = c.get("off1", 0), c.get("off2", 0)
+    s1 = max(WIDTH_SIZE[c["w1"]] or k1, o1 + k1)
+    s2 = max(WIDTH_SIZE[c["w2"]] or k2, o2 + k2)
     al1 = _alphabet(s1, "int")
     al2 = al1 if (c["alph2"] == "same" and s1 == s2) else _alphabet(s2, "chr")
     assert s1 * s2 <= 70000 * 8, "matrix too large"
-    big = np.zeros((s1, s2), dtype=np.int32 if max(abs(x) for r in c["M"] for x in r) < 2**31 else np.int64)
-    big[:k1, :k2] = np.array(c["M"], dtype=np.int64)
-    if s1 > k1 or s2 > k2:      # unused entries must not matter
-        big[k1:, :] = 7
-        big[:, k2:] = -7
+    if s1 > k1 or s2 > k2:      # entries outside the used block must not matter: fill them with a varied pattern
+        rr = np.arange(s1, dtype=np.int64)[:, None]
+        cc = np.arange(s2, dtype=np.int64)[None, :]
+        big = ((rr * 7 + cc * 13 + 3) % 11 - 5)
+    else:
+        big = np.zeros((s1, s2), dtype=np.int64)
+    big[o1:o1 + k1, o2:o2 + k2] = np.array(c["M"], dtype=np.int64)
+    if max(abs(x) for r in c["M"] for x in r) < 2**31:
+        big = big.astype(np.int32)
     matrix = align.SubstitutionMatrix(al1, al2, big)
     seqs = []
-    for codes, al, w in ((c["a"], al1, c["w1"]), (c["b"], al2, c["w2"])):
+    for codes, al, w, off in ((c["a"], al1, c["w1"], o1), (c["b"], al2, c["w2"], o2)):
         s = seq.GeneralSequence(al)
+        codes = [x + off for x in codes]
         s.code = np.array(codes, dtype=np.int64)
         if w == "u64":           # alphabets > 2**32 symbols cannot be built: force the uint64 specialisation
             s._seq_code = np.array(codes, dtype=np.uint64)
@@ -582,6 +609,9 @@ def oracle(case):
     if best != sc:
         v.append((key_ovf if overflow else tag + "/not-optimal",
                   f"reported score {sc}, true optimum {best} (a={a} b={b} M={Mx} gap={gap} mode={mode})"))
+    if c.get("off1") or c.get("off2"):
+        ctx = f" [real codes = model codes + {c.get('off1', 0)} / + {c.get('off2', 0)}, widths {c['w1']}/{c['w2']}]"
+        v = [(k, msg + ctx) for k, msg in v]
     # de-duplicate keys; in the int32-bound stream every symptom is the one overflow finding
     seen, out = set(), []
     for k, msg in v:
@@ -605,7 +635,7 @@ def signature(case):
 
 
 def distribution(cases, impl_outs):
-    d = {"mode": {}, "gap": {}, "widths": {}, "n_traces": {}, "len": {}, "alph2": {}, "errors": {}}
+    d = {"mode": {}, "gap": {}, "widths": {}, "code_values": {}, "n_traces": {}, "len": {}, "alph2": {}, "errors": {}}
 
     def inc(k, x):
         d[k][x] = d[k].get(x, 0) + 1
@@ -613,6 +643,8 @@ def distribution(cases, impl_outs):
         inc("mode", c["mode"])
         inc("gap", "linear" if len(c["gap"]) == 1 else ("affine open<ext" if c["gap"][0] < c["gap"][1] else "affine"))
         inc("widths", c["w1"] + "/" + c["w2"])
+        inc("code_values", ">=65536" if max(c.get("off1", 0), c.get("off2", 0)) >= 65530 else
+            ">=256" if max(c.get("off1", 0), c.get("off2", 0)) >= 250 else "<256")
         inc("alph2", c["alph2"])
         ln = max(len(c["a"]), len(c["b"]))
         inc("len", "0" if min(len(c["a"]), len(c["b"])) == 0 else "1-3" if ln <= 3 else "4-7" if ln <= 7 else "8+")
